@@ -50,7 +50,8 @@ type diskState struct {
 	transEnd   map[string]int64 // side -> sequence at which the last transition returned; under h.mu
 	canaryHash string
 	staging    string
-	midcycle   *midcycleEvent // under mu
+	midcycle   *midcycleEvent    // under mu
+	mounts     map[string]string // side -> mount point of its own small tmpfs (a separate device), if any
 }
 
 // midcycleEvent is a user action that strikes just before the Nth hooked
@@ -74,13 +75,38 @@ var stackLabels = []simkit.StackLabel{
 }
 
 func (h *harness) setupDisk() error {
-	base, err := os.MkdirTemp("/dev/shm", "verif-syncsim-")
+	base, err := os.MkdirTemp(scratchParent(), "verif-syncsim-")
 	if err != nil {
 		return err
 	}
 	d := &diskState{h: h, base: base, roots: map[string]string{"alpha": filepath.Join(base, "alpha"), "beta": filepath.Join(base, "beta"), "gamma": filepath.Join(base, "gamma")},
 		canary: filepath.Join(base, "canary"), stamp: 1_000_000_000, userEdit: map[string]int64{}, lastSnap: map[string]*core.Entry{},
 		scanStart: map[string]int64{}, transStart: map[string]int64{}, gated: map[string]bool{}, freshAt: map[string]int64{}, transEnd: map[string]int64{}}
+	// A root on its own small filesystem: a real second device (staging in the
+	// data directory then crosses devices: genuine EXDEV on every rename into the
+	// root) that can genuinely fill up (ENOSPC from the kernel, partial writes).
+	d.mounts = map[string]string{}
+	if kb := h.plan.C("dev_kb"); kb > 0 {
+		for i, side := range []string{"alpha", "beta"} {
+			if h.plan.C("dev_side")&(1<<i) == 0 {
+				continue
+			}
+			mp := filepath.Join(base, "dev-"+side)
+			if err := os.Mkdir(mp, 0o755); err != nil {
+				return err
+			}
+			if err := unix.Mount("tmpfs", mp, "tmpfs", 0, fmt.Sprintf("size=%dk,mode=0755", kb)); err != nil {
+				// No mount privilege here: the run proceeds on the shared device
+				// and the gap is visible in the evidence counters.
+				h.s.Count("probe.device_mount_unavailable", 1)
+				os.Remove(mp)
+				continue
+			}
+			h.s.Count("probe.device_mounts", 1)
+			d.mounts[side] = mp
+			d.roots[side] = filepath.Join(mp, "root")
+		}
+	}
 	for _, r := range d.roots {
 		if err := os.Mkdir(r, 0o755); err != nil {
 			return err
@@ -110,6 +136,18 @@ func (h *harness) setupDisk() error {
 	return nil
 }
 
+// scratchParent is where per-run scratch trees go: the orchestrator's job
+// directory when there is one (it unmounts and removes everything beneath it when
+// the check ends, also after a worker was killed), /dev/shm otherwise.
+func scratchParent() string {
+	if d := os.Getenv("MUTAGEN_DATA_DIRECTORY"); d != "" {
+		if p := filepath.Dir(d); strings.HasPrefix(p, "/dev/shm/verif-check-") {
+			return p
+		}
+	}
+	return "/dev/shm"
+}
+
 func setHook(f func(op string, dirfd int, path string, dirfd2 int, path2 string) error) {
 	filesystem.VerifSyscallHook = f
 }
@@ -117,6 +155,9 @@ func setHook(f func(op string, dirfd int, path string, dirfd2 int, path2 string)
 func (h *harness) teardownDisk() {
 	filesystem.VerifSyscallHook = nil
 	if h.disk != nil {
+		for _, mp := range h.disk.mounts {
+			unix.Unmount(mp, unix.MNT_DETACH)
+		}
 		rmAll(h.disk.base)
 	}
 }
@@ -248,6 +289,14 @@ func (d *diskState) hook(op string, dirfd int, path string, dirfd2 int, path2 st
 			s.Count("fault.fs_user."+kind, 1)
 			d.userOp(simkit.Op{Actor: "user", Kind: kind, N: []int64{f.Arg, 0}, S: []string{gateSide, rel}})
 		}
+	}
+	// A filesystem without RENAME_NOREPLACE (NFS, many FUSE filesystems): every
+	// renameat2 answers "not supported" for the whole run, so mutagen takes its
+	// probe-then-rename fallback. This is a property of the environment, not a
+	// fault: nothing is relaxed for it.
+	if op == "renameat2" && d.h.plan.C("no_renameat2") == 1 {
+		s.Count("probe.renameat2_unsupported", 1)
+		return unix.ENOTSUP
 	}
 	// Fault injection keyed by (side, activity, operation), Nth occurrence.
 	n := s.Occur(key)
@@ -610,6 +659,14 @@ func (d *diskState) userOp(op simkit.Op) {
 		for _, n := range names {
 			rmAll(filepath.Join(root, n.Name()))
 		}
+	case "fill":
+		// Something else on the same device uses up its space (the file lies
+		// beside the root, not in it), leaving N pages free.
+		d.fill(side, op.Int(0))
+		return
+	case "unfill":
+		d.unfill(side)
+		return
 	case "swaplink":
 		// Replace a directory (or anything) by a symbolic link to the canary.
 		d.clearPath(root, rel)
@@ -621,6 +678,37 @@ func (d *diskState) userOp(op simkit.Op) {
 	d.recordEdit(side, rel)
 	d.h.s.Logf("user", "%s %s %q -> %s", op.Kind, side, rel, render(d.walkTree(side)))
 	d.h.s.Count("probe.user_edits", 1)
+}
+
+// fill consumes the free space of a side's own device except for `leave` pages.
+func (d *diskState) fill(side string, leave int64) {
+	mp := d.mounts[side]
+	if mp == "" {
+		return
+	}
+	var st unix.Statfs_t
+	if unix.Statfs(mp, &st) != nil {
+		return
+	}
+	n := int64(st.Bavail)*int64(st.Bsize) - leave*int64(st.Bsize)
+	f, err := os.OpenFile(filepath.Join(mp, "fill.bin"), os.O_CREATE|os.O_WRONLY|os.O_APPEND, 0o600)
+	if err != nil {
+		return
+	}
+	if n > 0 {
+		f.Write(make([]byte, n))
+	}
+	f.Close()
+	d.h.s.Count("fault.disk_full", 1)
+	d.h.s.Logf("user", "the device of %s fills up (%d pages left)", side, leave)
+}
+
+func (d *diskState) unfill(side string) {
+	if mp := d.mounts[side]; mp != "" {
+		if os.Remove(filepath.Join(mp, "fill.bin")) == nil {
+			d.h.s.Logf("user", "space is freed on the device of %s", side)
+		}
+	}
 }
 
 func (d *diskState) mirror() {
@@ -904,6 +992,18 @@ func (e *diskEndpoint) Transition(ctx context.Context, transitions []*core.Chang
 		return results, problems, missing, err
 	}
 	tree := d.walkTree(e.side)
+	// Reach probes: the guards of C08 actually fired (content changed after the scan
+	// was refused and reported as a problem).
+	for _, p := range problems {
+		switch {
+		case strings.Contains(p.Error, "modification detected"):
+			h.s.Count("probe.transition_problem_modified", 1)
+		case strings.Contains(p.Error, "unknown content encountered"):
+			h.s.Count("probe.transition_problem_unknown_content", 1)
+		case strings.Contains(p.Error, "target does not match"):
+			h.s.Count("probe.transition_problem_link_target", 1)
+		}
+	}
 	h.mu.Lock()
 	if len(problems) > 0 || missing {
 		h.cycleClean = false
